@@ -70,9 +70,14 @@ package action
 
 // the bytes that are signed: serialisation of (type, payload, fee, memo). Assumed: serialisation of a RawTx
 // never fails and is a function of the four fields (T-SER).
-//@ assume func (*RawTx).RawBytes
+// VERIFIED on the body: what is handed to the signature check is the serialisation of the transaction object itself, all
+// four fields as they are (`ser(*t, "RawTx")`, whenever that serialisation succeeds) - not of a normalised, trimmed or
+// re-encoded copy. Trusted: that this serialisation never fails and is the function rawBytesOf of the four fields.
+//@ func (*RawTx).RawBytes
+//@   requires t != nil
 //@   modifies nothing
-//@   ensures result == rawBytesOf(*t)
+//@   trusts result == rawBytesOf(*t)
+//@   ensures serok(*t, "RawTx") ==> result == ser(*t, "RawTx")                                              // C04.signed-bytes-are-the-tx
 
 // ---------------------------------------------------------------- fee handling (C02, C03, C18)
 //
